@@ -1,5 +1,6 @@
 import Driver.Util
 import ReplicatModel.Settings
+import ReplicatModel.KeyFileIO
 open Lean Replicat Replicat.Gen Replicat.Settings
 namespace Driver.HSettings
 /-! requests `settings.*` (DESIGN.md Appendix A).
@@ -118,6 +119,35 @@ def parseKeyOp (j : Json) : Except String (KeyOp Nat) := do
   | "clone" => pure (.clone (← getNat j "using") (← getNat j "using_pw") kdf)
   | _ => throw s!"unknown key op {kind}"
 
+/-! key files on disk (`ReplicatModel/KeyFileIO.lean`) -/
+
+def modeName : WriteMode → String
+  | .truncate => "truncate" | .replace => "replace" | .inPlace => "inPlace" | .append => "append" | .exclusive => "exclusive"
+
+def parseMode (s : String) : Except String WriteMode :=
+  match s with
+  | "truncate" => pure .truncate | "replace" => pure .replace | "inPlace" => pure .inPlace
+  | "append" => pure .append | "exclusive" => pure .exclusive
+  | _ => throw s!"unknown write mode {s}"
+
+def optNat (j : Json) (k : String) : Except String (Option Nat) :=
+  match j.getObjVal? k with
+  | .ok v => if v.isNull then pure none else do pure (some (← v.getNat?))
+  | .error _ => pure none
+
+/-- the serialisation of "the next key handed out" — the harness passes the real files' serialised keys in production order -/
+def serAt (sers : Array Replicat.Bytes) (i : Nat) : KeyFile Nat → Replicat.Bytes := fun _ => sers[i]?.getD []
+
+def diskJson (d : KeyDisk Nat UInt8) : Json :=
+  let paths := (d.files.map (·.1)).eraseDups.mergeSort (· ≤ ·)
+  let indexOf (k : KeyFile Nat) : Json := match d.ring.keys.findIdx? (fun kp => kp.1.salt == k.salt) with
+    | some i => jnat i | none => Json.null
+  Json.mkObj [
+    ("keys", jnat d.ring.keys.length),
+    ("files", Json.arr (paths.map (fun p => Json.arr #[jnat p, Json.str (hex ((d.files.lookup p).getD []))])).toArray),
+    ("holder", Json.arr (((d.holder.map (·.1)).eraseDups.mergeSort (· ≤ ·)).map (fun p =>
+        Json.arr #[jnat p, match d.holder.lookup p with | some kp => indexOf kp.1 | none => Json.null])).toArray)]
+
 def handleSettings (op : String) (j : Json) : Except String Json := do
   match op with
   | "settings.decide" =>
@@ -151,6 +181,24 @@ def handleSettings (op : String) (j : Json) : Except String Json := do
     let keys := ring.keys.map (fun (k, p) => Json.mkObj [("family", jnat k.family), ("pw", jnat p), ("kdf", jnat k.kdf)])
     let matrix := ring.keys.map (fun (k, _) => Json.arr (pws.map (fun p => Json.bool (unlockKey k p).isSome)).toArray)
     pure (Json.mkObj [("keys", Json.arr keys.toArray), ("matrix", Json.arr matrix.toArray)])
+  | "settings.keydisk" =>
+    -- init (-o out | printed) + chain of add-key invocations, each printed or written to a path, over pre-existing files;
+    -- the way the path is opened comes from the regenerated source facts unless the request overrides it
+    let valid ← getNatList j "valid"
+    let init ← j.getObjVal? "init"
+    let mInit ← match j.getObjVal? "mode_init" with | .ok v => parseMode (← v.getStr?) | .error _ => pure keyWriteInit
+    let mAdd ← match j.getObjVal? "mode_addkey" with | .ok v => parseMode (← v.getStr?) | .error _ => pure keyWriteAddKey
+    let sers ← (← getArr j "ser").mapM (fun v => do unhex (← v.getStr?))
+    let files0 ← (← getArr j "files0").toList.mapM (fun v => do
+      let a ← v.getArr?
+      pure ((← (a[0]?.getD Json.null).getNat?), (← unhex (← (a[1]?.getD Json.null).getStr?))))
+    let ops ← (← getArr j "ops").toList.mapM (fun o => do pure ({ op := ← parseKeyOp o, out := ← optNat o "out" } : KeyOpAt Nat))
+    let modes := Json.mkObj [("init", Json.str (modeName mInit)), ("add_key", Json.str (modeName mAdd)), ("after_checks", Json.bool keyWriteAfterChecks)]
+    match initDisk mInit (serAt sers 0) files0 (← getNat init "pw") (← getNat init "kdf") (← optNat init "out") with
+    | none => pure (Json.mkObj [("init_ok", Json.bool false), ("modes", modes)])
+    | some d0 =>
+      let d := ops.foldl (fun d o => stepDisk mAdd (serAt sers d.ring.keys.length) (fun k => valid.contains k) d o) d0
+      pure ((diskJson d).mergeObj (Json.mkObj [("init_ok", Json.bool true), ("modes", modes)]))
   | "settings.table" =>
     pure (Json.mkObj [("adapters", Json.arr (adapterTable.map (fun r => Json.mkObj [
             ("name", Json.str r.name), ("kinds", Json.arr (r.kinds.map Json.str).toArray),
@@ -163,6 +211,8 @@ def handleSettings (op : String) (j : Json) : Except String Json := do
             ("hashing_kind_unchecked", Json.bool (!kindChecked "hashing")),
             ("chunking_kind_unchecked", Json.bool (!kindChecked "chunking"))]),
           ("d12_fixed_in_source", Json.bool d12FixedInSource),
+          ("key_write", Json.mkObj [("init", Json.str (modeName keyWriteInit)), ("add_key", Json.str (modeName keyWriteAddKey)),
+                                    ("after_checks", Json.bool keyWriteAfterChecks)]),
           ("recognised", Json.bool settingsRecognised)])
   | _ => throw s!"unknown op {op}"
 
